@@ -24,9 +24,24 @@ pub fn dump<'tcx>(tcx: TyCtxt<'tcx>) -> J {
         if tcx.hir_maybe_body_owned_by(*ldid).is_none() {
             continue;
         }
-        let body = tcx.optimized_mir(did);
-        let d = D { tcx, body, did, env: ty::TypingEnv::post_analysis(tcx, did) };
-        out.push(d.body());
+        // a failure while dumping one body must not take the whole crate's facts down
+        let r = std::panic::catch_unwind(std::panic::AssertUnwindSafe(|| {
+            let body = tcx.optimized_mir(did);
+            let d = D { tcx, body, did, env: ty::TypingEnv::post_analysis(tcx, did) };
+            d.body()
+        }));
+        match r {
+            Ok(j) => out.push(j),
+            Err(_) => out.push(J::O(vec![
+                ("path".into(), J::S(path(tcx, did))),
+                ("dump_failed".into(), J::B(true)),
+                ("file".into(), J::s("")),
+                ("line".into(), J::I(0)),
+                ("argc".into(), J::I(0)),
+                ("locals".into(), J::A(vec![])),
+                ("blocks".into(), J::A(vec![])),
+            ])),
+        }
     }
     J::A(out)
 }
